@@ -55,6 +55,18 @@ def gen_case(seed, i, tier, with_faults=False):
                 m = r.weighted([('own_write', 3), ('commit', 3), ('flush', 1), ('sel', 1), ('get', 1)])
                 mid.append([m, hot if r.chance(0.8) else r.below(3), r.below(10)])
             steps = first + mid + [list(st) for st in first]
+        elif r.chance(0.3):
+            # write-first form: the session assigns an attribute it has not read, may read it back, commits
+            # (the session goes on), lets the row be fetched again in some way, and reads the attribute
+            wa = r.below(2)                       # bal / note: what own_write writes and 'attr' index 0 / 1 reads
+            hot_attr = wa
+            steps = [['own_write', hot, wa]]
+            if r.chance(0.5):
+                steps.append(['attr', hot, wa])
+            steps.append([r.choice(['commit', 'commit', 'flush']), 0, 0])
+            for _ in range(r.randint(1, 3)):
+                steps.append([r.choice(['sel', 'sel_one', 'load', 'get', 'prefetch', 'attr', 'items_iter', 'commit']), hot, wa])
+            steps.append(['attr', hot, wa])
         kind = r.weighted([('opt', 8), ('nonopt', 1), ('serializable', 1)])
         rprog.append({'role': 'reader', 'kind': kind, 'steps': steps})
     threads['T0'] = rprog
